@@ -94,9 +94,19 @@ class AH:
             self.reg(s.op(A, 'var', v), T.var(v, n), 'var')
         elif k < 0.3:
             a, c = rng.choice(hs), rng.choice(hs)
-            name = rng.choice(['and', 'or', 'xor', 'implies', 'equiv', 'diff'])
-            self.reg(s.op(A, 'apply', rng.choice(gen.ALIASES[name]), a, c, None),
-                     gen.conn(name, self.live[a], self.live[c], full), f'apply {name}')
+            r3 = rng.random()
+            if r3 < 0.12:
+                # the unary and the ternary form of `apply`
+                self.reg(s.op(A, 'apply', rng.choice(gen.ALIASES['not']), a, None, None),
+                         T.neg(self.live[a], n), 'apply not')
+            elif r3 < 0.24:
+                e_ = rng.choice(hs)
+                self.reg(s.op(A, 'apply', 'ite', a, c, e_),
+                         T.ite(self.live[a], self.live[c], self.live[e_], n), 'apply ite')
+            else:
+                name = rng.choice(['and', 'or', 'xor', 'implies', 'equiv', 'diff'])
+                self.reg(s.op(A, 'apply', rng.choice(gen.ALIASES[name]), a, c, None),
+                         gen.conn(name, self.live[a], self.live[c], full), f'apply {name}')
         elif k < 0.38:
             a, c = rng.choice(hs), rng.choice(hs)
             o = rng.choice(['not', 'and', 'or', 'implies', 'equiv'])
